@@ -25,6 +25,7 @@ ASSUMPTIONS = ['report parser keyed on the E/J/number first token of each row of
 
 
 RULE = RULE + " Extras include junctions just above the ground plane (higher than 1/1000 of the shortest segment, lower than 1/1000 of the long wire's segments)."
+RULE = RULE + ' In the extras the ends named by the report are checked against the ends of the description (wire points, arc angles); clockwise arcs with a wire on one end.'
 
 
 def bounds(tier, seed):
